@@ -224,13 +224,14 @@ impl Iterator for MarkdownIterator<'_> {
 
             // found the initial front-matter (=document configuration)?
             if !self.content_start && line == "---" {
-                let mut line = self.document_lines.next()?;
-                self.line_index += 1;
+                // an unterminated front-matter is read to the end of the document
                 let mut config_content = vec![];
-                while line != "---" {
-                    config_content.push((self.line_index - 1, line.to_string()));
-                    line = self.document_lines.next()?;
+                for line in self.document_lines.by_ref() {
                     self.line_index += 1;
+                    if line == "---" {
+                        break;
+                    }
+                    config_content.push((self.line_index - 1, line.to_string()));
                 }
                 Some(MarkdownToken::DocumentConfig(config_content))
 
@@ -243,18 +244,16 @@ impl Iterator for MarkdownIterator<'_> {
                     // Record the opening line (i.e. the opening backticks)
                     let starting_line_number = self.line_index - 1;
                     let mut lines = vec![line.to_string()];
-                    let mut line = self.document_lines.next()?;
-                    self.line_index += 1;
 
-                    // Record all lines until the closing backticks
-                    while !line.starts_with(backticks) {
-                        lines.push(line.to_string());
-                        line = self.document_lines.next()?;
+                    // Record all lines until (and including) the closing backticks;
+                    // an unterminated block is read to the end of the document
+                    for line in self.document_lines.by_ref() {
                         self.line_index += 1;
+                        lines.push(line.to_string());
+                        if line.starts_with(backticks) {
+                            break;
+                        }
                     }
-
-                    // Record the closing backticks
-                    lines.push(line.to_string());
 
                     // Return the verbatim code block
                     return Some(MarkdownToken::VerbatimCodeBlock {
@@ -275,21 +274,19 @@ impl Iterator for MarkdownIterator<'_> {
                     vec![]
                 };
 
-                let mut line = self.document_lines.next()?;
-                self.line_index += 1;
+                // gather leading comments, then code until the closing backticks;
+                // an unterminated block is read to the end of the document
                 let mut comment_lines = vec![];
-                while is_comment(line) {
-                    comment_lines.push((self.line_index - 1, line.to_string()));
-                    line = self.document_lines.next()?;
-                    self.line_index += 1;
-                }
-
-                // gather code until then end
                 let mut code_lines = vec![];
-                while !line.starts_with(backticks) {
-                    code_lines.push((self.line_index - 1, line.to_string()));
-                    line = self.document_lines.next()?;
+                for line in self.document_lines.by_ref() {
                     self.line_index += 1;
+                    if code_lines.is_empty() && is_comment(line) {
+                        comment_lines.push((self.line_index - 1, line.to_string()));
+                    } else if line.starts_with(backticks) {
+                        break;
+                    } else {
+                        code_lines.push((self.line_index - 1, line.to_string()));
+                    }
                 }
 
                 Some(MarkdownToken::TestCodeBlock {
